@@ -154,10 +154,7 @@ R.contract(
     file=EAPI,
     params=dict(self="Evaluator", problem="Problem", individuals="list[Individual]"),
     returns="None",
-    requires={
-        "distinct_stores": "forall(0, len(individuals), lambda a: forall(0, len(individuals), lambda b: "
-        "implies(not same(individuals[a], individuals[b]), not same(individuals[a].fitness_store, individuals[b].fitness_store))))",
-    },
+    requires={},
     ensures={
         "all_evaluated": "forall(0, len(individuals), lambda k: problem in individuals[k].fitness_store)",
         "existing_fitness_kept": "fitness_stores_monotone()",
@@ -207,10 +204,7 @@ R.contract(
 
 ELI = "geneticengine/algorithms/gp/operators/elitism.py"
 R.cls("ElitismStep", bases=["GeneticStep"], fields={}, file=ELI)
-DISTINCT = {
-    "distinct_stores": "forall(0, avail(population), lambda a: forall(0, avail(population), lambda b: "
-    "implies(not same(item(population, a), item(population, b)), not same(item(population, a).fitness_store, item(population, b).fitness_store))))",
-}
+DISTINCT = {}
 R.contract(
     "ElitismStep.iterate",
     file=ELI,
@@ -297,4 +291,206 @@ R.contract(
     },
     modifies=["random.*", "evaluator.count", "problem.ff.fn.ncalls", "all:dict", "all:field:phenotype"],
     props=["C15", "C17"],
+)
+
+R.contract(
+    "Individual.__init__",
+    params=dict(self="Individual", genotype="Genotype?", representation="Representation", metadata="any"),
+    returns="None",
+    ensures={
+        "fields": "same(self.genotype, genotype) and same(self.representation, representation) and self.phenotype is None",
+        "no_fitness_yet": "emptydict(self.fitness_store) and fresh(self.fitness_store) and len(keysof(self.fitness_store)) == 0",
+    },
+    modifies=["self.*"],
+    verify=False,
+    note="constructor summary (body: four field assignments and a fresh WeakKeyDictionary); class-level default phenotype = None",
+)
+R.contract(
+    "NoveltyStep.iterate",
+    file=NOV,
+    overrides="GeneticStep.iterate",
+    params=dict(self="NoveltyStep", **STEP_PARAMS),
+    returns="iter[Individual]",
+    requires={"target_nonneg": "target_size >= 0"},
+    loops={0: Loop(invariants={"count": "len(OUT) == _k"}, modifies=["OUT[]", "random.*"])},
+    modifies=["random.*"],
+    props=["C15"],
+)
+R.contract(
+    "GenericMutationStep.iterate",
+    file=MUT,
+    overrides="GeneticStep.iterate",
+    params=dict(self="GenericMutationStep", **STEP_PARAMS),
+    returns="iter[Individual]",
+    requires={**STEP_REQ, "representation_mutates": "isinstance(representation, RepresentationWithMutation)"},
+    loops={0: Loop(invariants={"count": "len(OUT) == ite(_k < target_size, _k, target_size)"}, modifies=["OUT[]", "random.*"])},
+    modifies=["random.*"],
+    props=["C15"],
+)
+R.contract(
+    "GenericCrossoverStep.crossover",
+    file=CRO,
+    params=dict(self="GenericCrossoverStep", random="RandomSource", individual1="Individual", individual2="Individual", representation="Representation"),
+    returns="tuple[Individual,Individual]",
+    requires={"representation_crosses": "isinstance(representation, RepresentationWithCrossover)"},
+    ensures={"two_new_individuals": "fresh(result[0]) and fresh(result[1])"},
+    modifies=["random.*"],
+    props=["C15", "C09"],
+)
+R.contract(
+    "GenericCrossoverStep.iterate",
+    file=CRO,
+    overrides="GeneticStep.iterate",
+    params=dict(self="GenericCrossoverStep", **STEP_PARAMS),
+    returns="iter[Individual]",
+    requires={**STEP_REQ, "representation_crosses": "isinstance(representation, RepresentationWithCrossover)",
+              "pairs_available": "implies(target_size >= 2, avail(population) >= 2)"},
+    loops={0: Loop(invariants={"count": "len(OUT) == 2 * _k", "population_kept": "len(npopulation) == old(avail(population))"},
+                   modifies=["OUT[]", "random.*"])},
+    modifies=["random.*"],
+    props=["C15"],
+)
+R.contract(
+    "EvaluateStep.iterate",
+    file=EVS,
+    overrides="GeneticStep.iterate",
+    params=dict(self="EvaluateStep", **STEP_PARAMS),
+    returns="iter[Individual]",
+    requires={**STEP_REQ, **DISTINCT},
+    modifies=["evaluator.count", "problem.ff.fn.ncalls", "all:dict", "all:field:phenotype"],
+    props=["C15"],
+)
+R.contract(
+    "SequenceStep.iterate",
+    file=COMB,
+    overrides="GeneticStep.iterate",
+    params=dict(self="SequenceStep", **STEP_PARAMS),
+    returns="iter[Individual]",
+    requires={**STEP_REQ, "at_least_one_step": "len(self.steps) >= 1"},
+    loops={0: Loop(invariants={"enough": "avail(npopulation) >= target_size", "exact_after_first": "implies(_k >= 1, avail(npopulation) == target_size)"},
+                   modifies=list(STEP_MOD))},
+    modifies=list(STEP_MOD),
+    props=["C15"],
+)
+
+# ---- initialisers, Population, GP ---------------------------------------------------------------------------
+INIT = "geneticengine/algorithms/gp/operators/initializers.py"
+TOP = "geneticengine/representations/tree/operators.py"
+COMMON = "geneticengine/representations/common.py"
+POP = "geneticengine/algorithms/gp/population.py"
+GPF = "geneticengine/algorithms/gp/gp.py"
+R.cls("PopulationInitializer", fields={}, file=STRUCT)
+INIT_PARAMS = dict(problem="Problem", representation="Representation", random="RandomSource", target_size="int")
+R.contract(
+    "PopulationInitializer.initialize",
+    params=dict(self="PopulationInitializer", **INIT_PARAMS),
+    returns="iter[Individual]",
+    requires={"target_nonneg": "target_size >= 0"},
+    ensures={"exactly_k": "len(result) == target_size"},
+    modifies=["random.*"],
+    fresh_result=True,
+    verify=False,
+    note="interface contract of every population initialiser",
+)
+R.cls("StandardInitializer", bases=["PopulationInitializer"], fields={}, file=INIT)
+R.cls("HalfAndHalfInitializer", bases=["PopulationInitializer"], fields={"initializer1": "PopulationInitializer", "initializer2": "PopulationInitializer"}, file=INIT)
+R.cls("GenericPopulationInitializer", bases=["PopulationInitializer"], fields={}, file=COMMON)
+R.cls("InjectInitialPopulationWrapper", bases=["PopulationInitializer"], fields={"programs": "list[Individual]", "backup_initializer": "PopulationInitializer"}, file=TOP)
+R.cls("TreeBasedRepresentation", bases=["Representation"], fields={}, file="geneticengine/representations/tree/treebased.py")
+for key, file in (("StandardInitializer", INIT), ("GenericPopulationInitializer", COMMON)):
+    R.contract(
+        f"{key}.initialize",
+        file=file,
+        overrides="PopulationInitializer.initialize",
+        params=dict(self=key, **INIT_PARAMS, **({"kwargs": "any"} if key == "StandardInitializer" else {})),
+        returns="iter[Individual]",
+        requires={"target_nonneg": "target_size >= 0"},
+        loops={0: Loop(invariants={"count": "len(OUT) == _k"}, modifies=["OUT[]", "random.*"])},
+        modifies=["random.*"],
+        props=["C15"],
+    )
+R.contract(
+    "HalfAndHalfInitializer.initialize",
+    file=INIT,
+    overrides="PopulationInitializer.initialize",
+    params=dict(self="HalfAndHalfInitializer", **INIT_PARAMS, kwargs="any"),
+    returns="iter[Individual]",
+    requires={"target_nonneg": "target_size >= 0"},
+    modifies=["random.*"],
+    props=["C15"],
+)
+R.contract(
+    "InjectInitialPopulationWrapper.initialize",
+    file=TOP,
+    overrides="PopulationInitializer.initialize",
+    params=dict(self="InjectInitialPopulationWrapper", **INIT_PARAMS),
+    returns="iter[Individual]",
+    requires={"target_nonneg": "target_size >= 0", "tree_representation": "isinstance(representation, TreeBasedRepresentation)"},
+    loops={0: Loop(invariants={"count": "len(OUT) == _k"}, modifies=["OUT[]"])},
+    modifies=["random.*"],
+    props=["C15"],
+    note="injected programs are modelled as Individuals (the Individual branch of ensure_ind); wrapping of raw trees is covered by the bounded layer",
+)
+
+R.cls("Population", fields={"tracker": "SingleObjectiveProgressTracker", "individuals": "list[Individual]"}, file=POP)
+R.contract(
+    "ProgressTracker.evaluate_single",
+    params=dict(self="SingleObjectiveProgressTracker", individual="Individual"),
+    returns="None",
+    ensures={"evaluated": "self.problem in individual.fitness_store", "existing_fitness_kept": "fitness_stores_monotone()"},
+    modifies=["self.best_individual", "self.hist[]", "class:SearchRecorder", "self.evaluator.count", "self.problem.ff.fn.ncalls", "all:dict", "all:field:phenotype"],
+    verify=False,
+    note="summary of evaluate([individual]) (verified as SingleObjectiveProgressTracker.evaluate) for use inside Population",
+)
+R.contract(
+    "Population.__init__",
+    file=POP,
+    params=dict(self="Population", it="iter[Individual]", tracker="SingleObjectiveProgressTracker", generation="int"),
+    returns="None",
+    ensures={
+        "holds_every_individual_given": "len(self.individuals) == old(avail(it))",
+        "fresh_list": "fresh(self.individuals)",
+        "tracker_kept": "same(self.tracker, tracker)",
+    },
+    loops={0: Loop(invariants={"count": "len(self.individuals) == _k and fresh(self.individuals) and same(self.tracker, tracker)"},
+                   modifies=["self.individuals[]", "all:dict", "all:field:phenotype", "tracker.best_individual", "tracker.hist[]",
+                             "class:SearchRecorder", "tracker.evaluator.count", "tracker.problem.ff.fn.ncalls"])},
+    modifies=["self.*", "all:dict", "all:field:phenotype", "tracker.best_individual", "tracker.hist[]", "class:SearchRecorder",
+              "tracker.evaluator.count", "tracker.problem.ff.fn.ncalls"],
+    consumes=["it"],
+    props=["C15", "C13"],
+    note="ind.metadata['generation'] = generation is a write to a per-individual dict (covered by all:dict)",
+)
+
+R.cls("GeneticProgramming", bases=["HeuristicSearch"], fields={"population_size": "int", "population_initializer": "PopulationInitializer", "step": "GeneticStep"}, file=GPF)
+R.contract(
+    "GeneticProgramming.search",
+    file=GPF,
+    params=dict(self="GeneticProgramming"),
+    returns="Individual?",
+    requires={
+        "population_size_nonneg": "self.population_size >= 0",
+        "representation_varies": "isinstance(self.representation, RepresentationWithMutation) and isinstance(self.representation, RepresentationWithCrossover)",
+    },
+    ensures={"returns_tracker_best": "same(result, self.tracker.best_individual)",
+             "budget_met": "self.tracker.evaluator.count >= self.budget.evaluations_budget"},
+    proves={"final_generation_has_population_size": "len(population.individuals) == self.population_size"},
+    loops={
+        0: Loop(
+            invariants={
+                "every_generation_has_population_size": "len(population.individuals) == self.population_size",
+                "config_unchanged": "same(self.tracker, old(self.tracker)) and same(self.budget, old(self.budget)) and "
+                "self.population_size == old(self.population_size) and same(self.step, old(self.step)) and same(self.problem, old(self.problem)) and "
+                "same(self.representation, old(self.representation)) and same(self.random, old(self.random)) and "
+                "self.budget.evaluations_budget == old(self.budget.evaluations_budget) and same(self.tracker.evaluator, old(self.tracker.evaluator)) and "
+                "same(population.tracker, self.tracker)",
+            },
+            modifies=["self.random.*", "all:dict", "all:field:phenotype", "self.tracker.best_individual", "self.tracker.hist[]", "class:SearchRecorder",
+                      "self.tracker.evaluator.count", "self.tracker.problem.ff.fn.ncalls", "self.problem.ff.fn.ncalls"],
+        )
+    },
+    modifies=["self.random.*", "all:dict", "all:field:phenotype", "self.tracker.best_individual", "self.tracker.hist[]", "class:SearchRecorder",
+              "self.tracker.evaluator.count", "self.tracker.problem.ff.fn.ncalls", "self.problem.ff.fn.ncalls"],
+    props=["C15", "C12"],
+    note="partial correctness only: termination of GP depends on the step producing unevaluated individuals (DESIGN.md 3/C14)",
 )
